@@ -305,8 +305,11 @@ class BackendOps:
         L = self.L
         prec = g.prec()
         rnd = g.rnd()
-        if g.r.random() < 0.5:
+        k_ = g.r.random()
+        if k_ < 0.4:
             m = self.structured_int(g)
+        elif k_ < 0.6:
+            m = g.boundary_man(prec)
         else:
             m = g.man(g.nbits(prec), prec)
         if g.r.random() < 0.02:
@@ -321,18 +324,36 @@ class BackendOps:
         f = L._normalize1 if odd else L._normalize
         name = "normalize1" if odd else "normalize"
         return ("%s %d %x %d %d %d %s" % (name, sign, m, e, bc, prec, rnd), (lambda: enc_result(f(sign, m, e, bc, prec, rnd))),
-                {"site": "libmpf._normalize"})
+                {"site": "libmpf._normalize", "spec": _norm_spec(sign, m, e, prec, rnd), "n": m})
 
     def gen_from_man_exp(self, g):
         L = self.L
         prec = g.prec() if g.r.random() < 0.8 else 0
         rnd = g.rnd()
-        m = self.structured_int(g) * g.r.choice([-1, 1])
+        m = (g.boundary_man(prec) if (prec and g.r.random() < 0.25) else self.structured_int(g)) * g.r.choice([-1, 1])
         if g.r.random() < 0.03:
             m = 0
         e = g.exp()
         return ("from_man_exp %d %x %d %d %s" % (1 if m < 0 else 0, abs(m), e, prec, rnd),
-                (lambda: enc_result(L.from_man_exp(m, e, prec, rnd) if prec else L.from_man_exp(m, e))), {"site": "libmpf.from_man_exp"})
+                (lambda: enc_result(L.from_man_exp(m, e, prec, rnd) if prec else L.from_man_exp(m, e))),
+                {"site": "libmpf.from_man_exp", "spec": _norm_spec(1 if m < 0 else 0, abs(m), e, prec, rnd), "n": abs(m)})
+
+
+def _norm_spec(sign, m, e, prec, rnd):
+    """what gmpy's _mpmath_normalize / _mpmath_create are documented to return: the canonical tuple of (+-m)*2^e correctly
+    rounded to prec bits (prec = 0: exact), computed in exact integer arithmetic (harness/spec.py)"""
+    from fractions import Fraction
+    import spec
+    if m == 0:
+        return enc_mpf((0, 0, 0, 0))
+    if prec:
+        q, sc = spec.round_ref(prec, rnd, Fraction(-m if sign else m))
+        q = abs(q)
+    else:
+        q, sc = m, 0
+    tz = (q & -q).bit_length() - 1
+    q >>= tz
+    return enc_mpf((sign, q, e + sc + tz, q.bit_length()))
 
 
 T1_OPS = ["py_bitcount", "py_trailing", "isqrt_small", "isqrt_small_float", "sqrtrem", "isqrt_fast", "numeral", "mul_pair",
